@@ -113,6 +113,7 @@ theorem isAlign_stepOp (b : Bag) (op : Op) (hne : op ≠ .unalign) : (stepOp b o
       · rfl
       · rename_i r hr
         exact (cleanSitesBag_fields (isCleanFn_maj _ ends ig iN) hr).2.2.2.1
+  | replaceRe ok seqs => simp only [stepOp]; split <;> rfl
   | add n s => exact isAlign_addSeqAs _ b n s
   | ignore p => rfl
   | clear => rfl
